@@ -1,6 +1,7 @@
 """C05 check configuration."""
 
 PROP = {
+    "thorough_scale": 4,
     "race": True,
     "parts": [
         {"name": "server", "pkg": "internal/dnsforward",
